@@ -300,25 +300,8 @@ def script_out(rng, kinds):
     return {"members": members, "steps": steps, "watch": 3000, "settle": 20}
 
 
-PKG_KINDS = {"pkg/gcc": {"cc", "ccleaky"}, "pkg/pacing": {"pacing"}, "pkg/nack": {"nackgen", "nackresp"}, "pkg/packetdump": {"pdrecv", "pdsend"},
-             "pkg/twcc": {"twccsend", "twcchdr"}, "pkg/rfc8888": {"rfc8888"}, "pkg/report": {"rrecv", "rsend"}, "pkg/stats": {"stats"},
-             "pkg/intervalpli": {"pli"}, "pkg/flexfec": {"flexfec"}, "pkg/jitterbuffer": {"jitter"}, "pkg/rtpfb": {"rtpfb"}}
-
-
-def culprit_hint(done, out):
-    """A crash in a background goroutine: blame the latest executed script containing a member of the crashing package."""
-    i = out.find("panic:")
-    tail = out[i:i + 3000] if i >= 0 else out[-3000:]
-    for pkg, kinds in PKG_KINDS.items():
-        if "github.com/pion/interceptor/" + pkg in tail:
-            for sc in reversed(done):
-                if kinds & {m["k"] for m in sc["members"]}:
-                    return sc
-    return None
-
-
 def run_batch(ctx, scripts, tag):
-    return vlib.run_batch(ctx, culprit_hint=culprit_hint, tag=tag, scripts=scripts, pkg_rel="", pkgname="interceptor_test",
+    return vlib.run_batch(ctx, culprit_hint=vlib.univ_culprit_hint, tag=tag, scripts=scripts, pkg_rel="", pkgname="interceptor_test",
                           files=["zz_verif_univ_test.go", "common:zz_verif_pkt_test.go.tpl"],
                           test="TestVerifUnivExec", trace_module="Trace_Robust.tla",
                           nontrivial=lambda evs: any(e.get("raw") for e in evs), race=False, go_timeout=2400)
